@@ -175,13 +175,15 @@ def check_nested(case):
     c1, c2, d1, b4 = case['vals']
     books = {
         'c': ({'A1': c1, 'A2': c2, 'A3': '=A1*A2'}, []),
-        'd': ({'A1': d1, 'B1': '=A1/4'}, []),
-        'b': ({'A1': '=[1]S!A1*2', 'A2': '=SUM([1]S!A1:A3)', 'A3': '=[2]S!B1+A1', 'A4': b4}, ['c', 'd']),
-        'a': ({'A1': '=[1]S!A1+1', 'A2': '=[1]S!A2+[1]S!A4', 'A3': '=SUM([1]S!A1:A4)', 'A4': 'text'}, ['b']),
+        # d.xlsx also holds a name defined as another name (TOTALS := RATES := S!$C$1:$C$2) whose cells nothing else refers to
+        'd': ({'A1': d1, 'B1': '=A1/4', 'C1': 11.0, 'C2': c2, 'C3': '=SUM(TOTALS)'}, []),
+        'b': ({'A1': '=[1]S!A1*2', 'A2': '=SUM([1]S!A1:A3)', 'A3': '=[2]S!B1+A1', 'A4': b4, 'A5': '=[2]S!C3*2'}, ['c', 'd']),
+        'a': ({'A1': '=[1]S!A1+1', 'A2': '=[1]S!A2+[1]S!A4', 'A3': '=SUM([1]S!A1:A4)', 'A4': 'text', 'A5': '=[1]S!A5+1'}, ['b']),
     }
-    ev = {'c': {'A1': c1, 'A2': c2, 'A3': c1 * c2}, 'd': {'A1': d1, 'B1': d1 / 4}}
-    ev['b'] = {'A1': c1 * 2, 'A2': c1 + c2 + c1 * c2, 'A3': d1 / 4 + c1 * 2, 'A4': b4}
-    ev['a'] = {'A1': ev['b']['A1'] + 1, 'A2': ev['b']['A2'] + b4, 'A3': ev['b']['A1'] + ev['b']['A2'] + ev['b']['A3'] + b4, 'A4': 'text'}
+    ev = {'c': {'A1': c1, 'A2': c2, 'A3': c1 * c2}, 'd': {'A1': d1, 'B1': d1 / 4, 'C3': 11.0 + c2}}
+    ev['b'] = {'A1': c1 * 2, 'A2': c1 + c2 + c1 * c2, 'A3': d1 / 4 + c1 * 2, 'A4': b4, 'A5': (11.0 + c2) * 2}
+    ev['a'] = {'A1': ev['b']['A1'] + 1, 'A2': ev['b']['A2'] + b4, 'A3': ev['b']['A1'] + ev['b']['A2'] + ev['b']['A3'] + b4, 'A4': 'text',
+               'A5': (11.0 + c2) * 2 + 1}
     fails = []
     with G.workdir() as root:
         paths = {}
@@ -192,6 +194,10 @@ def check_nested(case):
             ws.title = 'S'
             for k, v in cells.items():
                 ws[k] = v
+            if nm == 'd':
+                from openpyxl.workbook.defined_name import DefinedName
+                wb.defined_names['RATES'] = DefinedName('RATES', attr_text='S!$C$1:$C$2')
+                wb.defined_names['TOTALS'] = DefinedName('TOTALS', attr_text='RATES')
             for t in links:
                 rel = posixpath.relpath(posixpath.join(dirs[t], t + '.xlsx'), dirs[nm] or '.')
                 el = ExternalLink(externalBook=ExternalBook(sheetNames=ExternalSheetNames(sheetName=['S'])))
@@ -228,7 +234,7 @@ def _specs(tier):
     q = tier == 'quick'
     return st.builds(lambda spec, orders, rev, links: {'k': 'spec', 'spec': spec, 'dict_orders': ['asis'] + orders, 'files': True, 'rev_sheets': rev,
                                                         'links': links},
-                     G.specs(tier, max_books=2 if q else 3, wholecols=False, anchor_rate=3),
+                     G.specs(tier, max_books=2 if q else 3, wholecols=False, anchor_rate=3, alias_rate=2, name_rate=4),
                      st.lists(st.sampled_from(ORDERS[1:]), min_size=1, max_size=2 if q else 3, unique=True),
                      st.booleans(), st.one_of(st.none(), st.integers(0, 7)))
 
